@@ -320,6 +320,12 @@ impl InnerInMemory {
         }
     }
 
+    /// Returns true if the record set is the NS set of a delegation point: NS exists without SOA.
+    fn is_delegation(&self, rr_set: &RecordSet) -> bool {
+        let soa_key = RrKey::new(rr_set.name().into(), RecordType::SOA);
+        rr_set.record_type() == RecordType::NS && !self.records.contains_key(&soa_key)
+    }
+
     /// Chase a CNAME chain to its terminal record (RFC 1034 §3.6.2).
     ///
     /// Starting from a CNAME answer, follows the canonical name until a
@@ -367,6 +373,8 @@ impl InnerInMemory {
             match self.inner_lookup(&next_name, query_type, lookup_options) {
                 // Intermediate CNAME — keep chasing.
                 Some(rr_set) if rr_set.record_type() == RecordType::CNAME => chain.push(rr_set),
+                // Target is at or below a zone cut, the delegation is not part of the answer.
+                Some(rr_set) if self.is_delegation(&rr_set) => break,
                 // Terminal record (A, AAAA, MX, etc.).
                 Some(rr_set) => {
                     chain.push(rr_set);
